@@ -1004,3 +1004,107 @@ func deferredInHolder(c *Ctx, fn *ssa.Function, class string) bool {
 	}
 	return false
 }
+
+func init() {
+	register(&Rule{
+		ID: "WTXN-FRESH", Props: []string{"C05"}, Floor: 3,
+		Doc: "what a library function writes into a table entry of its write transaction (delete trackers, initialization record, revision, indexes) is never computed from a read snapshot (DB.ReadTxn) taken in the same function before the write transaction was opened: the writer starts from the state of the table at lock acquisition, a snapshot taken before the lock misses what committed in between",
+		Run: ruleWtxnFresh,
+	})
+}
+
+func ruleWtxnFresh(c *Ctx, r *Reporter) {
+	n := 0
+	for _, fn := range c.Funcs {
+		if fn.Parent() != nil || fn.Package() == nil {
+			continue
+		}
+		pk := shortPkg(fn.Package().Pkg.Path())
+		if pk != "statedb" && pk != "reconciler" {
+			continue
+		}
+		fns := withAnon(fn)
+		// stores to fields of a table entry
+		var stores []*ssa.Store
+		for _, f := range fns {
+			for _, ia := range allInstrs(f) {
+				if st, ok := ia.In.(*ssa.Store); ok {
+					if fa, ok := st.Addr.(*ssa.FieldAddr); ok {
+						if tn, _, ok := fieldOf(fa); ok && tn == "tableEntry" {
+							stores = append(stores, st)
+						}
+					}
+				}
+			}
+		}
+		if len(stores) == 0 {
+			continue
+		}
+		// forward taint from DB.ReadTxn() results
+		taint := map[ssa.Value]bool{}
+		for _, f := range fns {
+			for _, ia := range allInstrs(f) {
+				if call, ok := ia.In.(*ssa.Call); ok && c.calleeName(call) == "statedb.(DB).ReadTxn" {
+					// a snapshot taken while the write transaction is already open sees, for the
+					// locked tables, exactly what the transaction started from
+					locked := false
+					for _, ib := range allInstrs(f) {
+						if w, ok := ib.In.(*ssa.Call); ok && c.calleeName(w) == "statedb.(DB).WriteTxn" && instrDominates(w, call) {
+							locked = true
+						}
+					}
+					if !locked {
+						taint[call] = true
+					}
+				}
+			}
+		}
+		if len(taint) > 0 {
+			for changed := true; changed; {
+				changed = false
+				for _, f := range fns {
+					for _, ia := range allInstrs(f) {
+						switch x := ia.In.(type) {
+						case *ssa.Store:
+							if taint[x.Val] {
+								root := x.Addr
+								for {
+									if fa, ok := root.(*ssa.FieldAddr); ok {
+										root = fa.X
+										continue
+									}
+									if ix, ok := root.(*ssa.IndexAddr); ok {
+										root = ix.X
+										continue
+									}
+									break
+								}
+								if al, ok := root.(*ssa.Alloc); ok && !taint[al] {
+									taint[al] = true
+									changed = true
+								}
+							}
+						case ssa.Value:
+							if taint[x] {
+								continue
+							}
+							for _, op := range ia.In.Operands(nil) {
+								if *op != nil && taint[*op] {
+									taint[x] = true
+									changed = true
+									break
+								}
+							}
+						}
+					}
+				}
+			}
+		}
+		for i, st := range stores {
+			n++
+			_, f, _ := fieldOf(st.Addr.(*ssa.FieldAddr))
+			r.check(!taint[st.Val], fmt.Sprintf("%s|tableEntry.%s#%d is not computed from a read snapshot", c.fnName(fn), f, i+1), c.posStr(instrPos(st)), "the stored value does not derive from a DB.ReadTxn() of this function", "the value written into the transaction's table entry is computed from a read snapshot taken in this function instead of from the entry the transaction got at lock acquisition: whatever another transaction committed to that table between the snapshot and the lock (a delete tracker registered by Changes(), an initializer) is overwritten with the stale state")
+		}
+	}
+	r.note("%d stores to table entries in functions of the library checked", n)
+}
